@@ -248,11 +248,13 @@ class Engine(ExprMixin, CallMixin, ContractMixin, BuiltinMixin, StmtMixin, LoopM
         arg_ts = [self.parse_type_str(t, mod) for t in sf.sig[0]]
         ret_t = self.parse_type_str(sf.sig[1], mod)
         f = z3.Function(f"spec.{sf.name}", *[sym.sort_of(t) for t in arg_ts], sym.sort_of(ret_t))
+        # (spec mode is total: an Optional actual is read through its value; callers guard the None case)
+        args = [sym.opt_val(a) if isinstance(a.t, TOpt) and not isinstance(t, TOpt) else a for a, t in zip(args, arg_ts)]
         cargs = [sym.coerce(self.reify(a), t) for a, t in zip(args, arg_ts)]
         app = f(*[a.z for a in cargs])
         key = ("unfold", sf.name, tuple(str(sym.lsimp(a.z)) for a in cargs))
         depth = st.ghost.get("unfold_depth", 0)
-        if key not in st.ghost.get("unfolded", ()) and depth < sf.fuel:
+        if not sf.abstract and key not in st.ghost.get("unfolded", ()) and depth < sf.fuel:
             st.ghost["unfolded"] = set(st.ghost.get("unfolded", ())) | {key}
             from .calls import _spec_body_expr
 
@@ -264,7 +266,7 @@ class Engine(ExprMixin, CallMixin, ContractMixin, BuiltinMixin, StmtMixin, LoopM
             s2.guards = []
             s2.ghost = dict(st.ghost)
             s2.ghost["unfold_depth"] = depth + 1
+            s2.pc = st.pc  # shared list: the unfolding instance must reach the caller's path condition
             val = sym.coerce(self.reify(self.evs(expr, s2)), ret_t)
-            st.pc = s2.pc
             st.assume_raw(app == val.z)
         return SV(ret_t, app)
